@@ -195,10 +195,17 @@ func (c *Conn) clientHandshake(ctx context.Context) (err error) {
 	// 首次发送 ClientHello（cookie=""），收到 HelloVerifyRequest 后保存 cookie 并重发。
 	var serverHello *serverHelloMsg
 
+	// newHello：本轮发送的是一条新的 ClientHello（首次发送或带上 cookie 之后），需要分配新的 message_seq；
+	// 超时重传或对端重传 HelloVerifyRequest 时重发的是同一条消息，message_seq 必须保持不变，
+	// 否则服务端已记入握手摘要的 ClientHello 与客户端的不一致，Finished 校验必然失败。
+	newHello := true
 	for {
 		c.hsState.Store(int32(stateSending))
-		hello.setMessageSeq(c.messageSeq)
-		c.messageSeq++
+		if newHello {
+			hello.setMessageSeq(c.messageSeq)
+			c.messageSeq++
+			newHello = false
+		}
 
 		// 写入 ClientHello，不加入 transcript
 		if _, err = c.writeHandshakeRecord(hello, nil); err != nil {
@@ -246,6 +253,7 @@ func (c *Conn) clientHandshake(ctx context.Context) (err error) {
 				c.handBuf.Reset()
 				c.hsState.Store(int32(stateSending))
 				resend = true
+				newHello = true
 
 			case *serverHelloMsg:
 				// Cookie 交换完成
